@@ -60,7 +60,7 @@ var containerPools = map[byte][]SRule{
 	'a': {Ru("minItems", "1"), Ru("maxItems", "2"), Ru("minItems", "3"), Ru("type", `"array"`), Ru("nullable", "true"), Ru("type", `"any"`), Ru("or", `["array", "string"]`)},
 }
 
-var Notes = []string{"", "note", "two words", "a-b c", "text {x", "\u3000wide\u00a0", "\fff\v", "tail \u2003"}
+var Notes = []string{"", "note", "two words", "a-b c", "-1 disables it", "- dash first", "text {x", "\u3000wide\u00a0", "\fff\v", "tail \u2003"}
 
 // selections returns all ordered selections of <= k rules with distinct names.
 func selections(pool []SRule, k int) [][]SRule {
